@@ -1,5 +1,6 @@
 SPECIFICATION MCSpec
 CONSTANTS MaxLen = 2
           BlobLens = {0, 1, 253, 254, 255, 256}
+          KSet = {7, 15, 23, 31, 39, 63}
 INVARIANTS SizeOK ReadBack ExactConsumption NoStuck Canonical SelfDelimiting Complete
 CHECK_DEADLOCK FALSE
